@@ -1,7 +1,9 @@
 package vc
 
 import (
+	"fmt"
 	"go/types"
+	"os"
 
 	"golang.org/x/tools/go/ssa"
 )
@@ -98,4 +100,17 @@ func isLeaf(fn *ssa.Function) bool {
 		}
 	}
 	return true
+}
+
+// arrvalMin: scalar arrays at least this long are loaded as one window value (see load).
+var arrvalMin = int64(1 << 30)
+
+func init() {
+	if v := os.Getenv("GOCV_ARRWIN"); v != "" {
+		var n int64
+		fmt.Sscan(v, &n)
+		if n > 0 {
+			arrvalMin = n
+		}
+	}
 }
